@@ -104,7 +104,7 @@ inductive Refusal where
   | tooFewSamples               -- nearest-neighbour stage (KDTree k=2) with fewer than 2 cells
   | emptyFactor                 -- a factor without columns (Ridge refuses 0 features; unreachable since negative ranks are refused)
   | noInputUncertainty          -- _sigma_to_y_cov_factor(None, None, ·)
-  | sigmaShape                  -- function estimator: negative / more than 1-D sigma, per-cell sigma with m ≠ n landmarks
+  | sigmaShape                  -- function estimator: negative / more than 1-D sigma
   deriving Repr, DecidableEq
 
 inductive PredFamily where
@@ -413,18 +413,15 @@ def GPType.familyFor (est : Est) (gp : GPType) : PredFamily :=
 /-- `FunctionEstimator.compute_conditional`: for `FULL` (/`FULL_NYSTROEM`) `landmarks=None` is passed,
     so `FullConditional(x, y, …, sigma)`; otherwise `FullConditional` without landmarks and
     `LandmarksConditional(x, xu, y, …, sigma)` with `m` landmarks (never the Cholesky-latent class:
-    there is no latent vector).  A scalar `sigma` fits every size (the factor for the mean has one row
-    per landmark, the one for the uncertainty one row per cell); a per-cell `sigma` with `m ≠ n`
-    landmarks is refused by `_LandmarksConditional`. -/
-def functionPredictor (gp : GPType) (n : Nat) (lm : Option Nat) (sigma : SigmaForm) : Outcome :=
+    there is no latent vector).  A scalar `sigma` fits every size; a per-cell `sigma` (one entry per cell) is the noise of
+    the cells for every number of landmarks (`m < n`, `m = n`, `m > n`): `_LandmarksConditional`
+    whitens the observations with it, so the form of `sigma` does not enter the outcome. -/
+def functionPredictor (gp : GPType) (n : Nat) (lm : Option Nat) (_sigma : SigmaForm) : Outcome :=
   if gp = .full ∨ gp = .fullNystroem then .ok gp n n .full
   else
     match lm with
     | none => .ok gp n n .full
-    | some m =>
-      (match sigma with
-        | .vecN => if m ≠ n then .refused .sigmaShape else .ok gp n m .landmarks
-        | _ => .ok gp n m .landmarks)
+    | some m => .ok gp n m .landmarks
 
 /-- `FunctionEstimator`: the constructor fixes `rank = 1.0`, refuses a negative or more than
     one-dimensional `sigma` and the Nyström types; `prepare_inference` resolves `n_landmarks`,
